@@ -86,6 +86,12 @@ class C17(Check):
                     tags.append([t[1], t[2]])
                 reqs = [[[rng.choice([None, 'urn:a', 'urn:p']), rng.choice(['k', 'type', 'select', 'id'])] for _ in range(rng.randint(1, 2))]
                         for _ in range(rng.choice([0, 0, 1, 2]))]
+                if t[3] and rng.random() < 0.6:
+                    # requirements met (only) by attributes the root really has, whatever their value (empty values included)
+                    a = rng.choice(t[3])
+                    if rng.random() < 0.5:
+                        a[2] = rng.choice(['', '0', ' '])
+                    reqs.append([[a[0], a[1]]] + ([[None, 'absent']] if rng.random() < 0.5 else []))
                 out.append({'kind': 'validate', 'tree': t, 'tags': tags, 'reqs': reqs})
             else:
                 old, new = rng.choice(X.NSS), rng.choice(X.NSS + ['urn:new'])
